@@ -13,8 +13,8 @@ RULE = ("for every joint degree sequence in the box and every motif configuratio
         "all n_k!/prod_v d_vk! placements per topology reachable, all equally likely, independently per topology; "
         "non-trivial = instance with >= 3 distinct placements")
 BOUNDS = {
-    "quick": "N 1..4; entries 0..2; 9 fast + 11 custom configs; instances above 700 distinct arrangements skipped",
-    "thorough": "N<=5, entries<=3 (t=1); N<=4, entries<=2 and N<=5, entries<=1 (t=2); N<=4, entries<=1 and N<=3, entries<=2 (t=3); 12 fast + 13 custom configs; cap 5000; also network and "
+    "quick": "N 1..4, entries 0..2, plus N<=3 entries<=4 (t=1), N<=2 entries<=3 (t=2); 10 fast + 12 custom configs; instances above 500 distinct arrangements skipped",
+    "thorough": "N<=5, entries<=3 (t=1); N<=4, entries<=2 and N<=5, entries<=1 (t=2); N<=4, entries<=1 and N<=3, entries<=2 (t=3); 13 fast + 14 custom configs; cap 5000; also network and "
                 "factory paths",
 }
 ASSUMPTIONS = ["the claim 'by symmetry for larger sequences' is outside an exhaustive check and not claimed",
